@@ -1,0 +1,68 @@
+//go:build verif
+
+// Verification hooks (build tag "verif" only) for property C02: read-only views of the push
+// queue's internal tables and entry points to the unexported debounce loop and push sender.
+// No behaviour change; absent from normal builds.
+
+package xds
+
+import (
+	"time"
+
+	"go.uber.org/atomic"
+
+	"istio.io/istio/pilot/pkg/model"
+)
+
+// VerifPushQueueSnapshot is a copy of the queue's tables taken under its lock.
+type VerifPushQueueSnapshot struct {
+	Queue        []*Connection
+	Pending      map[*Connection]*model.PushRequest
+	Processing   map[*Connection]*model.PushRequest
+	ShuttingDown bool
+}
+
+// VerifSnapshot copies pending / queue / processing / shuttingDown.
+func (p *PushQueue) VerifSnapshot() VerifPushQueueSnapshot {
+	p.cond.L.Lock()
+	defer p.cond.L.Unlock()
+	s := VerifPushQueueSnapshot{
+		Queue:        append([]*Connection(nil), p.queue...),
+		Pending:      make(map[*Connection]*model.PushRequest, len(p.pending)),
+		Processing:   make(map[*Connection]*model.PushRequest, len(p.processing)),
+		ShuttingDown: p.shuttingDown,
+	}
+	for k, v := range p.pending {
+		s.Pending[k] = v
+	}
+	for k, v := range p.processing {
+		s.Processing[k] = v
+	}
+	return s
+}
+
+// VerifDebounce runs the unexported debounce loop with the given options (blocks until stopCh closes).
+func VerifDebounce(ch chan *model.PushRequest, stopCh <-chan struct{}, debounceAfter, debounceMax time.Duration,
+	enableEDSDebounce bool, pushFn func(req *model.PushRequest), updateSent *atomic.Int64,
+) {
+	debounce(ch, stopCh, DebounceOptions{
+		DebounceAfter:     debounceAfter,
+		debounceMax:       debounceMax,
+		enableEDSDebounce: enableEDSDebounce,
+	}, pushFn, updateSent)
+}
+
+// VerifDoSendPushes runs the unexported push sender loop (blocks until stopCh closes or the queue shuts down).
+func VerifDoSendPushes(stopCh <-chan struct{}, semaphore chan struct{}, queue *PushQueue) {
+	doSendPushes(stopCh, semaphore, queue)
+}
+
+// VerifEventRequest returns the push request carried by a push event taken from Connection.PushCh().
+func VerifEventRequest(ev any) *model.PushRequest {
+	return ev.(*Event).pushRequest
+}
+
+// VerifEventDone calls the event's done function (what Connection.Push / the delta stream loop do after pushing).
+func VerifEventDone(ev any) {
+	ev.(*Event).done()
+}
